@@ -94,7 +94,7 @@ pub open spec fn was_put(reqs: Seq<Req>, n0: int, hl: Map<String, Fingerprint>, 
         &&& res is Ok ==> forall|p: PathBuf| #[trigger] l.contains_key(p) && !up_to_date(hl, l, p) ==> was_put(final(log).reqs, n0, hl, l, pv(local_root), p, true)
     }),
 //@replace /HubClient::connect\(target\)/ => HubClient::connect(target, Tracked(log))
-//@replace /client\.list\(\)/ => client.list(Tracked(log))
+//@replace /client\.list\(\)/ => client.list(Tracked(log)) #all
 //@replace? /client\.put\(((?:[^()]|\([^()]*\))*)\)/ => client.put(\1, Tracked(log)) #all
 //@replace? /client\.bye\(\)/ => client.bye(Tracked(log)) #all
 //@replace /rel\.to_string_lossy\(\)\.into_owned\(\)/ => to_lossy_string(rel)
